@@ -63,7 +63,7 @@ func (s *zzUpload) do(c *reghttp.Client, ctx context.Context, req *reghttp.Req) 
 	}
 	reply := func(status int, h http.Header) (*reghttp.Resp, error) {
 		resp := reghttp.ZZNewResp(s.client, ctx, req, u, status, h, nil, 0)
-		if status >= 400 && !req.IgnoreErr {
+		if status < 200 || status >= 300 { // as the real Do: any non-2xx reply is an error, IgnoreErr only suppresses the back-off
 			return resp, fmt.Errorf("request failed: %w", reghttp.HTTPError(status))
 		}
 		return resp, nil
